@@ -266,8 +266,16 @@ func (env *Zlisp) MakeSymbol(name string) *SexpSymbol {
 }
 
 func (env *Zlisp) GenSymbol(prefix string) *SexpSymbol {
-	symname := prefix + strconv.Itoa(env.nextsymbol)
-	return env.MakeSymbol(symname)
+	// the symbol table may be shared with duplicates/clones that each
+	// have their own counter, and scripts can intern any name: skip
+	// candidate names that already exist so the result is always fresh.
+	for {
+		symname := prefix + strconv.Itoa(env.nextsymbol)
+		if _, exists := env.symtable[symname]; !exists {
+			return env.MakeSymbol(symname)
+		}
+		env.nextsymbol++
+	}
 }
 
 func (env *Zlisp) CurrentFunctionSize() int {
